@@ -76,6 +76,14 @@ Proof.
   - apply IH; assumption.
 Qed.
 
+Lemma NoDup_app_singleton : forall {A} (l : list A) x, NoDup l -> ~ In x l -> NoDup (l ++ [x]).
+Proof.
+  intros A l x. induction l as [|y tl IH]; intros Hnd Hn; simpl; [constructor; [intros []|constructor]|].
+  inversion Hnd as [|? ? Hy Hd]; subst. constructor.
+  - intro Hin. apply in_app_or in Hin. destruct Hin as [Hin | [<- | []]]; [contradiction|]. apply Hn. left. reflexivity.
+  - apply IH; [assumption|]. intro. apply Hn. right. assumption.
+Qed.
+
 Definition cntb {A} (p : A -> bool) (l : list A) : Z := Z.of_N (count_by p l).
 
 Lemma cntb_nil : forall {A} (p : A -> bool), cntb p [] = 0%Z.
@@ -174,7 +182,8 @@ Definition Kd (s : state) (other : N) (dz : bool -> Z) : Prop :=
 Definition K (s : state) : Prop := Kd s 0 (fun _ => 0%Z).
 
 Definition U (s : state) : Prop :=
-  NoDup (map of_other (st_oofs s)) /\ NoDup (map lf_other (st_lofs s)).
+  NoDup (map of_other (st_oofs s)) /\ NoDup (map lf_other (st_lofs s))
+  /\ NoDup (map fst (st_pending s)).
 
 (* everything named by a table was drawn from the generator before *)
 Definition Fr (s : state) : Prop :=
@@ -229,7 +238,7 @@ Proof.
 Qed.
 
 Lemma view_eq_U : forall s s', view_eq s s' -> U s -> U s'.
-Proof. unfold view_eq, U. intros s s' (H1&H2&_). rewrite H1, H2. tauto. Qed.
+Proof. unfold view_eq, U. intros s s' (H1&H2&H3&_). rewrite H1, H2, H3. tauto. Qed.
 
 Lemma view_eq_Fr : forall s s', view_eq s s' -> Fr s -> Fr s'.
 Proof. unfold view_eq, Fr. intros s s' (H1&H2&H3&H4&H5). rewrite H1, H2, H3, H5. tauto. Qed.
@@ -354,9 +363,9 @@ Qed.
 
 Lemma U_change : forall s s' other f,
   st_oofs s' = upd_at other f (st_oofs s) -> (forall x, of_other (f x) = of_other x) ->
-  st_lofs s' = st_lofs s -> U s -> U s'.
+  st_lofs s' = st_lofs s -> st_pending s' = st_pending s -> U s -> U s'.
 Proof.
-  intros s s' other f Hs Hk Hl [H1 H2]. split; [|rewrite Hl; assumption].
+  intros s s' other f Hs Hk Hl Hp [H1 [H2 H3]]. split; [|split; [rewrite Hl; assumption|rewrite Hp; assumption]].
   rewrite Hs. unfold upd_at. rewrite map_map.
   erewrite map_ext; [exact H1|]. intros x. simpl. destruct (of_other x =? other); [apply Hk|reflexivity].
 Qed.
@@ -471,7 +480,7 @@ Proof.
         destruct rd; simpl cnt; simpl cnt in Hc; simpl bit in *; unfold rd', wr', b2z in *.
         + destruct (m_r cleared); [specialize (Hr eq_refl)|]; lia.
         + destruct (m_w cleared); [specialize (Hw eq_refl)|]; lia. }
-    assert (U2 : U s2) by (eapply (U_change s s2 other f); try eassumption; unfold s2; rewrite V2; reflexivity).
+    assert (U2 : U s2) by (eapply (U_change s s2 other f); try eassumption; unfold s2; rewrite ?V2, ?V3; reflexivity).
     assert (F2 : Fr s2) by (eapply (Fr_change s s2 other f); try eassumption; unfold s2; rewrite ?V2, ?V3, ?V4; reflexivity).
     assert (P2 : forall h rd, Phi s2 h rd = Phi s h rd).
     { intros h rd. eapply (Phi_change s s2 other o f calls); try eassumption.
@@ -571,7 +580,7 @@ Proof.
     + intros x rd Hx Hxk Hc. assert (x = o) by (eapply (NoDup_key_eq of_other); try eassumption; [apply HU|congruence]).
       subst x. unfold expected in *. change (st_lofs s') with (st_lofs s). change (st_pending s') with (st_pending s).
       simpl of_sa. change (cnt rd (f o)) with (cnt rd o). lia.
-  - eapply (U_change s s' other f); try eassumption. reflexivity.
+  - eapply (U_change s s' other f); try eassumption; reflexivity.
   - eapply (Fr_change s s' other f); try eassumption; reflexivity.
   - intros h rd. eapply (Phi_change s s' other o f []); try eassumption; try reflexivity.
     simpl. change (holder h rd (f o)) with (holder h rd o). lia.
@@ -591,7 +600,7 @@ Proof.
   - intros o' rd Hin. rewrite Ho in Hin. unfold upd_at in Hin. apply in_map_iff in Hin. destruct Hin as [x [Hx Hin]].
     specialize (HK x rd Hin). unfold expected in *. change (st_lofs s') with (st_lofs s). change (st_pending s') with (st_pending s).
     subst o'. destruct (of_other x =? other); exact HK.
-  - eapply (U_change s s' other f); try eassumption. reflexivity.
+  - eapply (U_change s s' other f); try eassumption; reflexivity.
   - eapply (Fr_change s s' other f); try eassumption; reflexivity.
   - intros h rd. unfold Phi. change (st_ll s') with (st_ll s). change (st_pending s') with (st_pending s).
     rewrite Ho. f_equal. f_equal. unfold upd_at.
@@ -637,7 +646,7 @@ Proof.
       simpl of_sa. destruct rd; simpl cnt; simpl cnt in Hc; simpl bit in *; unfold rd', wr', b2z in *.
       * destruct (m_r m); lia.
       * destruct (m_w m); lia.
-  - eapply (U_change s s' other f); try eassumption. reflexivity.
+  - eapply (U_change s s' other f); try eassumption; reflexivity.
   - eapply (Fr_change s s' other f); try eassumption; reflexivity.
   - intros h rd. eapply (Phi_change s s' other o f []); try eassumption; try reflexivity.
     simpl. unfold holder. simpl of_handle. destruct (of_handle o =? h); simpl; [|reflexivity].
@@ -671,10 +680,10 @@ Proof.
   intros s lf [HK HU HF] Hin s'. split; [|split; [|split]].
   - intros o rd Ho. change (st_oofs s') with (st_oofs s) in Ho. specialize (HK o rd Ho).
     unfold expected in *. change (st_pending s') with (st_pending s). change (st_lofs s') with (del_by (fun l => lf_other l =? lf_other lf) (st_lofs s)).
-    rewrite (cntb_del_key lf_other (lf_other lf) (lofs_on (of_other o) rd) (st_lofs s) lf (proj2 HU) Hin eq_refl).
+    rewrite (cntb_del_key lf_other (lf_other lf) (lofs_on (of_other o) rd) (st_lofs s) lf (proj1 (proj2 HU)) Hin eq_refl).
     unfold lofs_on at 2. rewrite (N.eqb_sym (lf_oofs lf) (of_other o)).
     destruct (of_other o =? 0); destruct (of_other o =? lf_oofs lf); cbn [andb]; unfold b2z in *; destruct (bit rd (lf_sa lf)); destruct (bit rd (of_sa o)); lia.
-  - destruct HU as [U1 U2]. split; [assumption|]. change (st_lofs s') with (del_by (fun l => lf_other l =? lf_other lf) (st_lofs s)).
+  - destruct HU as [U1 [U2 U3]]. split; [assumption|split; [|assumption]]. change (st_lofs s') with (del_by (fun l => lf_other l =? lf_other lf) (st_lofs s)).
     unfold del_by. apply NoDup_map_filter. assumption.
   - destruct HF as (F1&F2&F3). unfold Fr. change (st_oofs s') with (st_oofs s). change (st_pending s') with (st_pending s).
     change (st_rng s') with (st_rng s). split; [assumption|split; [|assumption]].
@@ -729,7 +738,7 @@ Proof.
       * intros x rd Hx Hxk Hc. specialize (Hz x rd Hx Hxk).
         unfold expected in *. change (st_lofs s') with (st_lofs s). change (st_pending s') with (st_pending s).
         simpl of_sa. change (cnt rd (f x)) with (cnt rd x). lia.
-    + eapply (U_change s s' other f); try eassumption. reflexivity.
+    + eapply (U_change s s' other f); try eassumption; reflexivity.
     + eapply (Fr_change s s' other f); try eassumption; reflexivity.
   - intros h rd. unfold Phi. change (st_ll s') with (st_ll s). change (st_pending s') with (st_pending s).
     rewrite Ho. f_equal. f_equal. unfold upd_at.
@@ -935,3 +944,873 @@ Proof.
   destruct (expire_oos_pres (List.length (st_unused (expire_confs (List.length (st_idle s0)) (st_now s0 - lease)%Z s0))) (st_now s0 - lease)%Z _ H1) as [H2 P2].
   split; [exact H2|]. intros. rewrite P2, P1. apply view_eq_Phi. assumption.
 Qed.
+
+(* ---- functions returning a state and a result ------------------------------------------------- *)
+Definition pres2 {X} (f : state -> state * X) : Prop :=
+  forall s, Inv s -> Inv (fst (f s)) /\ forall h rd, Phi (fst (f s)) h rd = Phi s h rd.
+
+Lemma pres_of_view : forall s s', view_eq s s' -> Inv s -> Inv s' /\ forall h rd, Phi s' h rd = Phi s h rd.
+Proof. intros s s' V H. split; [eapply view_eq_Inv; eassumption|]. intros. apply view_eq_Phi. assumption. Qed.
+
+Lemma pres_chain : forall s s1 s2,
+  (Inv s -> Inv s1 /\ forall h rd, Phi s1 h rd = Phi s h rd) ->
+  (Inv s1 -> Inv s2 /\ forall h rd, Phi s2 h rd = Phi s1 h rd) ->
+  Inv s -> Inv s2 /\ forall h rd, Phi s2 h rd = Phi s h rd.
+Proof.
+  intros s s1 s2 H1 H2 H. destruct (H1 H) as [I1 P1]. destruct (H2 I1) as [I2 P2].
+  split; [assumption|]. intros. rewrite P2. apply P1.
+Qed.
+
+(* ---- the random number generator ---------------------------------------------------------------- *)
+Lemma w_rng_pres : forall s v, st_rng s <= v -> Inv s -> Inv (w_rng s v) /\ forall h rd, Phi (w_rng s v) h rd = Phi s h rd.
+Proof.
+  intros s v Hle [HK HU (F1&F2&F3)]. split; [|reflexivity]. constructor.
+  - exact HK.
+  - exact HU.
+  - unfold Fr. simpl. split; [|split].
+    + intros o Hin. specialize (F1 o Hin). lia.
+    + intros l Hin. specialize (F2 l Hin). lia.
+    + intros p Hin. specialize (F3 p Hin). destruct (snd p); try exact I. lia.
+Qed.
+
+Lemma draw_pres : forall s, Inv s -> Inv (snd (draw s)) /\ forall h rd, Phi (snd (draw s)) h rd = Phi s h rd.
+Proof. intros s H. unfold draw. simpl. apply w_rng_pres; [lia|assumption]. Qed.
+
+(* ---- transactions --------------------------------------------------------------------------------- *)
+Lemma view_oos_complete_tx : forall ck seq c s, view_eq s (oos_complete_tx ck seq c s).
+Proof.
+  intros. unfold oos_complete_tx.
+  eapply view_eq_trans; [|apply view_release].
+  set (s1 := set_oos_intx ck false s).
+  assert (V1 : view_eq s s1) by apply view_set_oos_intx.
+  set (s2 := if should_complete (status_of (ca_res c)) then _ else s1).
+  assert (V2 : view_eq s1 s2) by (unfold s2; destruct (should_complete _); [apply view_upd_oos|apply view_eq_refl]).
+  eapply view_eq_trans; [exact V1|]. eapply view_eq_trans; [exact V2|].
+  destruct (is_unused ck s2); [|apply view_eq_refl].
+  eapply view_eq_trans; [apply view_upd_oos|apply view_w_unused].
+Qed.
+
+Lemma view_los_start_tx : forall lk seq initial s, view_eq s (fst (los_start_tx lk seq initial s)).
+Proof.
+  intros. unfold los_start_tx. destruct (find_los lk s); [|apply view_panic].
+  destruct (match lo_last l with Some c => if seq =? lo_lastseq l then Some c else None | None => None end); [apply view_eq_refl|].
+  destruct (negb initial && negb (seq =? next_seq (lo_lastseq l))); [apply view_eq_refl|]. simpl.
+  eapply view_eq_trans; [apply view_upd_los|apply view_hold].
+Qed.
+
+Lemma view_los_complete_tx : forall lk seq c s, view_eq s (los_complete_tx lk seq c s).
+Proof.
+  intros. unfold los_complete_tx. eapply view_eq_trans; [|apply view_release].
+  destruct (should_complete _); [apply view_upd_los|apply view_eq_refl].
+Qed.
+
+Lemma oos_start_tx_pres : forall ck seq pol, pres2 (oos_start_tx ck seq pol).
+Proof.
+  intros ck seq pol s H. unfold oos_start_tx.
+  destruct (find_oos ck s) as [o|]; [|simpl; apply pres_of_view; [apply view_panic|assumption]].
+  set (s0 := if oo_intx o then panic s else s).
+  assert (V0 : view_eq s s0) by (unfold s0; destruct (oo_intx o); [apply view_panic|apply view_eq_refl]).
+  destruct (pres_of_view _ _ V0 H) as [H0 P0].
+  destruct (match oo_last o with Some c => if seq =? oo_lastseq o then Some c else None | None => None end).
+  { simpl. split; assumption. }
+  assert (Hmid : forall s1 (fail : bool), (Inv s1 /\ forall h rd, Phi s1 h rd = Phi s h rd) ->
+            let r := if fail then (s1, TxFail ERR_BAD_SEQID)
+                     else (hold (fst ck) (w_unused (set_oos_intx ck true (forget_last ck s1))
+                                                   (del_by (pair_eqb ck) (st_unused (set_oos_intx ck true (forget_last ck s1))))), TxStarted) in
+            Inv (fst r) /\ forall h rd, Phi (fst r) h rd = Phi s h rd).
+  { intros s1 fail [I1 P1]. destruct fail; simpl; [split; assumption|].
+    destruct (forget_last_pres ck s1 I1) as [I2 P2].
+    set (s2 := forget_last ck s1) in *.
+    assert (V : view_eq s2 (hold (fst ck) (w_unused (set_oos_intx ck true s2) (del_by (pair_eqb ck) (st_unused (set_oos_intx ck true s2)))))).
+    { eapply view_eq_trans; [apply view_set_oos_intx|]. eapply view_eq_trans; [apply view_w_unused|apply view_hold]. }
+    destruct (pres_of_view _ _ V I2) as [I3 P3]. split; [assumption|]. intros. rewrite P3, P2. apply P1. }
+  destruct (oo_confirmed o).
+  - apply (Hmid s0 (negb (seq =? next_seq (oo_lastseq o)))). split; assumption.
+  - destruct pol.
+    + apply (Hmid s0 (negb (seq =? next_seq (oo_lastseq o)))). split; assumption.
+    + apply (Hmid s0 true). split; assumption.
+    + apply (Hmid (oos_reinit ck s0) false). destruct (oos_reinit_pres ck s0 H0) as [I1 P1].
+      split; [assumption|]. intros. rewrite P1. apply P0.
+Qed.
+
+(* ---- lock-owner files: updates that keep identity, owner file and share mask ------------------------- *)
+Lemma upd_by_map_same : forall {A B} (p : A -> bool) (f : A -> A) (g : A -> B) (l : list A),
+  (forall x, g (f x) = g x) -> map g (upd_by p f l) = map g l.
+Proof.
+  intros A B p f g l Hg. induction l as [|x tl IH]; simpl; [reflexivity|].
+  destruct (p x); simpl; [rewrite Hg; reflexivity|rewrite IH; reflexivity].
+Qed.
+
+Lemma cntb_upd_by_same : forall {A} (p q : A -> bool) (f : A -> A) (l : list A),
+  (forall x, q (f x) = q x) -> cntb q (upd_by p f l) = cntb q l.
+Proof.
+  intros A p q f l Hq. induction l as [|x tl IH]; simpl; [reflexivity|].
+  destruct (p x); rewrite !cntb_cons; [rewrite Hq; reflexivity|rewrite IH; reflexivity].
+Qed.
+
+Lemma In_upd_by : forall {A} (p : A -> bool) (f : A -> A) (l : list A) y,
+  In y (upd_by p f l) -> exists x, In x l /\ (y = x \/ y = f x).
+Proof.
+  intros A p f l. induction l as [|x tl IH]; simpl; intros y Hy; [contradiction|].
+  destruct (p x); simpl in Hy.
+  - destruct Hy as [<- | Hy]; [exists x; split; [left; reflexivity|right; reflexivity]|].
+    exists y. split; [right; assumption|left; reflexivity].
+  - destruct Hy as [<- | Hy]; [exists x; split; [left; reflexivity|left; reflexivity]|].
+    destruct (IH y Hy) as [z [Hz Hyz]]. exists z. split; [right; assumption|assumption].
+Qed.
+
+Lemma upd_lofs_pres : forall other f s,
+  (forall l, lf_other (f l) = lf_other l /\ lf_oofs (f l) = lf_oofs l /\ lf_sa (f l) = lf_sa l) ->
+  Inv s -> Inv (upd_lofs other f s) /\ forall h rd, Phi (upd_lofs other f s) h rd = Phi s h rd.
+Proof.
+  intros other f s Hf [HK [U1 [U2 U3]] (F1&F2&F3)]. split; [|reflexivity]. unfold upd_lofs. constructor.
+  - intros o rd Hin. specialize (HK o rd Hin). unfold expected in *. simpl.
+    rewrite (cntb_upd_by_same _ (lofs_on (of_other o) rd) f (st_lofs s)); [exact HK|].
+    intros l. unfold lofs_on. destruct (Hf l) as (_&E1&E2). rewrite E1, E2. reflexivity.
+  - split; [exact U1|split; [|exact U3]]. simpl. rewrite upd_by_map_same; [exact U2|]. intros l. apply Hf.
+  - unfold Fr. simpl. split; [exact F1|split; [|exact F3]].
+    intros l Hin. apply In_upd_by in Hin. destruct Hin as [x [Hx [-> | ->]]]; [apply F2; assumption|].
+    destruct (Hf x) as (E0&E1&_). rewrite E0, E1. apply F2. assumption.
+Qed.
+
+(* appending a lock-owner file settles the debt of a cloned share reservation *)
+Lemma add_lofs_ok : forall s lf,
+  Kd s (lf_oofs lf) (fun rd => b2z (bit rd (lf_sa lf))) -> U s -> Fr s ->
+  (forall l, In l (st_lofs s) -> lf_other l <> lf_other lf) ->
+  lf_other lf < st_rng s -> lf_oofs lf < st_rng s ->
+  let s' := w_lofs s (st_lofs s ++ [lf]) in
+  Inv s' /\ forall h rd, Phi s' h rd = Phi s h rd.
+Proof.
+  intros s lf HK [U1 [U2 U3]] (F1&F2&F3) Hfresh Hl1 Hl2 s'. split; [|reflexivity]. constructor.
+  - intros o rd Hin. change (st_oofs s') with (st_oofs s) in Hin. specialize (HK o rd Hin).
+    unfold expected in *. change (st_pending s') with (st_pending s). change (st_lofs s') with (st_lofs s ++ [lf]).
+    rewrite cntb_app, cntb_cons, cntb_nil. unfold lofs_on at 2. rewrite (N.eqb_sym (lf_oofs lf) (of_other o)).
+    destruct (of_other o =? 0); destruct (of_other o =? lf_oofs lf); cbn [andb]; unfold b2z in *; destruct (bit rd (lf_sa lf)); lia.
+  - split; [exact U1|split; [|exact U3]]. change (st_lofs s') with (st_lofs s ++ [lf]). rewrite map_app. simpl.
+    apply NoDup_app_singleton; [exact U2|]. intro Hin. apply in_map_iff in Hin. destruct Hin as [l [E Hin]].
+    apply (Hfresh l Hin). exact E.
+  - unfold Fr. change (st_oofs s') with (st_oofs s). change (st_pending s') with (st_pending s). change (st_rng s') with (st_rng s).
+    split; [exact F1|split; [|exact F3]]. intros l Hin. change (st_lofs s') with (st_lofs s ++ [lf]) in Hin.
+    apply in_app_or in Hin. destruct Hin as [Hin | [<- | []]]; [apply F2; assumption|split; assumption].
+Qed.
+
+(* ---- pending calls ---------------------------------------------------------------------------------- *)
+Lemma add_pio_ok : forall s g other client m,
+  Kd s other (fun rd => b2z (bit rd m)) -> U s -> Fr s ->
+  ~ In g (map fst (st_pending s)) -> other < st_rng s ->
+  let s' := w_pending s (st_pending s ++ [(g, PIo other client m)]) in
+  Inv s' /\ forall h rd, Phi s' h rd = Phi s h rd.
+Proof.
+  intros s g other client m HK [U1 [U2 U3]] (F1&F2&F3) Hg Hlt s'. split.
+  - constructor.
+    + intros o rd Hin. change (st_oofs s') with (st_oofs s) in Hin. specialize (HK o rd Hin).
+      unfold expected in *. change (st_lofs s') with (st_lofs s). change (st_pending s') with (st_pending s ++ [(g, PIo other client m)]).
+      rewrite cntb_app, cntb_cons, cntb_nil. unfold io_on at 2. cbn [snd]. rewrite (N.eqb_sym other (of_other o)).
+      destruct (of_other o =? 0); destruct (of_other o =? other); cbn [andb]; unfold b2z in *; destruct (bit rd m); lia.
+    + split; [exact U1|split; [exact U2|]]. change (st_pending s') with (st_pending s ++ [(g, PIo other client m)]).
+      rewrite map_app. simpl. apply NoDup_app_singleton; assumption.
+    + unfold Fr. change (st_oofs s') with (st_oofs s). change (st_lofs s') with (st_lofs s). change (st_rng s') with (st_rng s).
+      split; [exact F1|split; [exact F2|]]. intros p Hin. change (st_pending s') with (st_pending s ++ [(g, PIo other client m)]) in Hin.
+      apply in_app_or in Hin. destruct Hin as [Hin | [<- | []]]; [apply F3; assumption|]. simpl. exact Hlt.
+  - intros h rd. unfold Phi. change (st_oofs s') with (st_oofs s). change (st_ll s') with (st_ll s).
+    change (st_pending s') with (st_pending s ++ [(g, PIo other client m)]). rewrite pends_net_app. simpl. unfold pend_net. simpl. lia.
+Qed.
+
+Lemma add_popen_ok : forall s g cl key seq acc prev,
+  Inv s -> ~ In g (map fst (st_pending s)) ->
+  let s' := w_ll (w_pending s (st_pending s ++ [(g, POpen cl key seq acc prev (st_ll s))])) [] in
+  Inv s' /\ forall h rd, Phi s' h rd = Phi s h rd.
+Proof.
+  intros s g cl key seq acc prev [HK [U1 [U2 U3]] (F1&F2&F3)] Hg s'. split.
+  - constructor.
+    + intros o rd Hin. change (st_oofs s') with (st_oofs s) in Hin. specialize (HK o rd Hin).
+      unfold expected in *. change (st_lofs s') with (st_lofs s).
+      change (st_pending s') with (st_pending s ++ [(g, POpen cl key seq acc prev (st_ll s))]).
+      rewrite cntb_app, cntb_cons, cntb_nil. unfold io_on at 2. cbn [snd]. lia.
+    + split; [exact U1|split; [exact U2|]]. change (st_pending s') with (st_pending s ++ [(g, POpen cl key seq acc prev (st_ll s))]).
+      rewrite map_app. simpl. apply NoDup_app_singleton; assumption.
+    + unfold Fr. change (st_oofs s') with (st_oofs s). change (st_lofs s') with (st_lofs s). change (st_rng s') with (st_rng s).
+      split; [exact F1|split; [exact F2|]]. intros p Hin.
+      change (st_pending s') with (st_pending s ++ [(g, POpen cl key seq acc prev (st_ll s))]) in Hin.
+      apply in_app_or in Hin. destruct Hin as [Hin | [<- | []]]; [apply F3; assumption|]. simpl. exact I.
+  - intros h rd. unfold Phi. change (st_oofs s') with (st_oofs s). change (st_ll s') with (@nil leafcall).
+    change (st_pending s') with (st_pending s ++ [(g, POpen cl key seq acc prev (st_ll s))]). rewrite pends_net_app. simpl.
+    unfold pend_net. simpl. lia.
+Qed.
+
+Lemma pends_net_del : forall h rd (l : list (N * pending)) g p,
+  NoDup (map fst l) -> In (g, p) l ->
+  pends_net h rd (del_by (fun q => fst q =? g) l) = (pends_net h rd l - pend_net h rd (g, p))%Z.
+Proof.
+  intros h rd l g p. induction l as [|y tl IH]; intros Hnd Hin; [contradiction|].
+  inversion Hnd as [|? ? Hn Hd]; subst. unfold del_by in *. simpl.
+  destruct Hin as [-> | Hin].
+  - simpl. rewrite N.eqb_refl. simpl.
+    assert (E : forall tl' : list (N * pending), (forall y, In y tl' -> fst y <> g) -> filter (fun q => negb (fst q =? g)) tl' = tl').
+    { induction tl' as [|z tl' IH2]; simpl; intros Hz; [reflexivity|].
+      destruct (fst z =? g) eqn:E.
+      - apply N.eqb_eq in E. exfalso. apply (Hz z); [left; reflexivity|assumption].
+      - simpl. f_equal. apply IH2. intros. apply Hz. right. assumption. }
+    rewrite (E tl); [lia|]. intros z Hz Heq. apply Hn. simpl. apply in_map_iff. exists z. split; assumption.
+  - destruct (fst y =? g) eqn:E.
+    + apply N.eqb_eq in E. exfalso. apply Hn. apply in_map_iff. exists (g, p). split; [simpl; congruence|assumption].
+    + simpl. rewrite IH by assumption. lia.
+Qed.
+
+Lemma find_pending_In : forall g s x, find_by (fun p => fst p =? g) (st_pending s) = Some x -> In x (st_pending s) /\ fst x = g.
+Proof. intros g s x H. apply find_by_In in H. destruct H as [H1 H2]. apply N.eqb_eq in H2. tauto. Qed.
+
+(* removing a parked I/O call leaves its open-owner file with the cloned bits as debt *)
+Lemma del_pio_ok : forall s g other client m,
+  Inv s -> In (g, PIo other client m) (st_pending s) ->
+  let s' := w_pending s (del_by (fun p => fst p =? g) (st_pending s)) in
+  Kd s' other (fun rd => b2z (bit rd m)) /\ U s' /\ Fr s' /\ forall h rd, Phi s' h rd = Phi s h rd.
+Proof.
+  intros s g other client m [HK [U1 [U2 U3]] (F1&F2&F3)] Hin s'. split; [|split; [|split]].
+  - intros o rd Ho. change (st_oofs s') with (st_oofs s) in Ho. specialize (HK o rd Ho).
+    unfold expected in *. change (st_lofs s') with (st_lofs s). change (st_pending s') with (del_by (fun p => fst p =? g) (st_pending s)).
+    rewrite (cntb_del_key fst g (io_on (of_other o) rd) (st_pending s) (g, PIo other client m) U3 Hin eq_refl).
+    unfold io_on at 2. cbn [snd]. rewrite (N.eqb_sym other (of_other o)).
+    destruct (of_other o =? 0); destruct (of_other o =? other); cbn [andb]; unfold b2z in *; destruct (bit rd m); destruct (bit rd (of_sa o)); lia.
+  - split; [exact U1|split; [exact U2|]]. change (st_pending s') with (del_by (fun p => fst p =? g) (st_pending s)).
+    unfold del_by. apply NoDup_map_filter. exact U3.
+  - unfold Fr. change (st_oofs s') with (st_oofs s). change (st_lofs s') with (st_lofs s). change (st_rng s') with (st_rng s).
+    split; [exact F1|split; [exact F2|]]. intros p Hp. change (st_pending s') with (del_by (fun p => fst p =? g) (st_pending s)) in Hp.
+    apply In_del_by in Hp. apply F3. tauto.
+  - intros h rd. unfold Phi. change (st_oofs s') with (st_oofs s). change (st_ll s') with (st_ll s).
+    change (st_pending s') with (del_by (fun p => fst p =? g) (st_pending s)).
+    rewrite (pends_net_del h rd (st_pending s) g (PIo other client m) U3 Hin). unfold pend_net. simpl. lia.
+Qed.
+
+(* a parked OPEN returns: its leavesToClose are pending again *)
+Lemma del_popen_ok : forall s g cl key seq acc prev ll,
+  Inv s -> In (g, POpen cl key seq acc prev ll) (st_pending s) ->
+  let s0 := w_pending s (del_by (fun p => fst p =? g) (st_pending s)) in
+  let s' := w_ll s0 (ll ++ st_ll s0) in
+  Inv s' /\ forall h rd, Phi s' h rd = Phi s h rd.
+Proof.
+  intros s g cl key seq acc prev ll [HK [U1 [U2 U3]] (F1&F2&F3)] Hin s0 s'. split.
+  - constructor.
+    + intros o rd Ho. change (st_oofs s') with (st_oofs s) in Ho. specialize (HK o rd Ho).
+      unfold expected in *. change (st_lofs s') with (st_lofs s). change (st_pending s') with (del_by (fun p => fst p =? g) (st_pending s)).
+      rewrite (cntb_del_key fst g (io_on (of_other o) rd) (st_pending s) (g, POpen cl key seq acc prev ll) U3 Hin eq_refl).
+      unfold io_on at 2. cbn [snd]. lia.
+    + split; [exact U1|split; [exact U2|]]. change (st_pending s') with (del_by (fun p => fst p =? g) (st_pending s)).
+      unfold del_by. apply NoDup_map_filter. exact U3.
+    + unfold Fr. change (st_oofs s') with (st_oofs s). change (st_lofs s') with (st_lofs s). change (st_rng s') with (st_rng s).
+      split; [exact F1|split; [exact F2|]]. intros p Hp. change (st_pending s') with (del_by (fun p => fst p =? g) (st_pending s)) in Hp.
+      apply In_del_by in Hp. apply F3. tauto.
+  - intros h rd. unfold Phi. change (st_oofs s') with (st_oofs s). change (st_ll s') with (ll ++ st_ll s).
+    change (st_pending s') with (del_by (fun p => fst p =? g) (st_pending s)).
+    rewrite (pends_net_del h rd (st_pending s) g (POpen cl key seq acc prev ll) U3 Hin), calls_net_app. unfold pend_net. simpl. lia.
+Qed.
+
+(* ---- OPEN: a leaf was opened ---------------------------------------------------------------------------- *)
+Lemma new_oofs_ok : forall s cl key h acc,
+  Inv s ->
+  let s2 := pool_open h (w_ll s (mkCall h true acc :: st_ll s)) in
+  let s3 := snd (draw s2) in
+  let s4 := w_oofs s3 (st_oofs s3 ++ [mkOofs (fst (draw s2)) 1 cl key h acc (if m_r acc then 1 else 0) (if m_w acc then 1 else 0) true]) in
+  Inv s4 /\ forall h' rd, Phi s4 h' rd = Phi s h' rd.
+Proof.
+  intros s cl key h acc [HK [U1 [U2 U3]] (F1&F2&F3)] s2 s3 s4.
+  assert (V2 : st_oofs s2 = st_oofs s /\ st_lofs s2 = st_lofs s /\ st_pending s2 = st_pending s /\ st_rng s2 = st_rng s
+               /\ st_ll s2 = mkCall h true acc :: st_ll s).
+  { destruct (view_pool_open h (w_ll s (mkCall h true acc :: st_ll s))) as (A&B&C&D&E). repeat split; assumption. }
+  destruct V2 as (Vo&Vl&Vp&Vr&Vll).
+  set (other := fst (draw s2)) in *. assert (Eo : other = st_rng s) by (unfold other, draw; simpl; exact Vr).
+  set (new := mkOofs other 1 cl key h acc (if m_r acc then 1 else 0) (if m_w acc then 1 else 0) true) in *.
+  assert (Eoofs : st_oofs s4 = st_oofs s ++ [new]) by (unfold s4, s3, draw; simpl; rewrite Vo; reflexivity).
+  assert (Elofs : st_lofs s4 = st_lofs s) by (unfold s4, s3, draw; simpl; exact Vl).
+  assert (Epend : st_pending s4 = st_pending s) by (unfold s4, s3, draw; simpl; exact Vp).
+  assert (Ell : st_ll s4 = mkCall h true acc :: st_ll s) by (unfold s4, s3, draw; simpl; exact Vll).
+  assert (Erng : st_rng s4 = st_rng s + 1) by (unfold s4, s3, draw; simpl; rewrite Vr; reflexivity).
+  split.
+  - constructor.
+    + intros o rd Hin. rewrite Eoofs in Hin. unfold expected. rewrite Elofs, Epend.
+      apply in_app_or in Hin. destruct Hin as [Hin | [<- | []]]; [apply HK; assumption|].
+      simpl of_other. simpl of_sa. rewrite Eo.
+      rewrite (cntb_zero (lofs_on (st_rng s) rd) (st_lofs s)).
+      2:{ intros l Hl. destruct (F2 l Hl) as [_ Hlt]. unfold lofs_on. assert (E : lf_oofs l =? st_rng s = false) by (apply N.eqb_neq; lia). rewrite E. reflexivity. }
+      rewrite (cntb_zero (io_on (st_rng s) rd) (st_pending s)).
+      2:{ intros p Hp. specialize (F3 p Hp). unfold io_on. destruct (snd p); try reflexivity.
+          assert (E : other0 =? st_rng s = false) by (apply N.eqb_neq; lia). rewrite E. reflexivity. }
+      destruct (st_rng s =? 0); destruct rd; simpl; unfold b2z; [destruct (m_r acc)|destruct (m_w acc)|destruct (m_r acc)|destruct (m_w acc)]; reflexivity.
+    + split; [|split; [rewrite Elofs; exact U2|rewrite Epend; exact U3]].
+      rewrite Eoofs, map_app. simpl. apply NoDup_app_singleton; [exact U1|].
+      intro Hin. apply in_map_iff in Hin. destruct Hin as [o [E Hin]]. specialize (F1 o Hin). lia.
+    + unfold Fr. rewrite Elofs, Epend, Erng. split; [|split].
+      * intros o Hin. rewrite Eoofs in Hin. apply in_app_or in Hin. destruct Hin as [Hin | [<- | []]]; [specialize (F1 o Hin); lia|simpl; lia].
+      * intros l Hl. specialize (F2 l Hl). lia.
+      * intros p Hp. specialize (F3 p Hp). destruct (snd p); try exact I. lia.
+  - intros h' rd. unfold Phi. rewrite Eoofs, Epend, Ell, cntb_app, cntb_cons, cntb_nil. simpl calls_net.
+    unfold holder, call_net. simpl.
+    destruct (h =? h'); simpl; [|lia].
+    unfold new, cnt, bit. destruct rd; cbn [of_rd of_wr]; [destruct (m_r acc)|destruct (m_w acc)]; try change (0 <? 1) with true; try change (0 <? 0) with false; cbv iota; lia.
+Qed.
+
+Lemma upgrade_ok : forall s other o acc,
+  Inv s -> In o (st_oofs s) -> of_other o = other ->
+  let s1 := w_ll s (mkCall (of_handle o) true acc :: st_ll s) in
+  Inv (oofs_upgrade other acc s1) /\ forall h rd, Phi (oofs_upgrade other acc s1) h rd = Phi s h rd.
+Proof.
+  intros s other o acc [HK HU HF] Hin Hk s1. unfold oofs_upgrade.
+  assert (Ef : find_oofs other s1 = Some o) by (change (find_oofs other s1) with (find_oofs other s); apply find_oofs_In; assumption).
+  rewrite Ef.
+  set (rd' := if m_r acc && negb (m_r (of_sa o)) then of_rd o + 1 else of_rd o).
+  set (wr' := if m_w acc && negb (m_w (of_sa o)) then of_wr o + 1 else of_wr o).
+  set (f := fun o0 : oofs => mkOofs (of_other o0) (next_seq (of_seq o0)) (of_client o0) (of_owner o0) (of_handle o0) (mask_or (of_sa o0) acc) rd' wr' (of_live o0)).
+  set (s2 := upd_oofs other f s1).
+  set (m := mkMask (m_r acc && (0 <? of_rd o)) (m_w acc && (0 <? of_wr o))).
+  assert (U1 : U s1) by exact HU.
+  assert (Ho2 : st_oofs s2 = upd_at other f (st_oofs s)) by (apply (upd_oofs_at other f s1 U1)).
+  destruct (emit_close_view (of_handle o) m s2) as (V1&V2&V3&V4).
+  destruct (emit_close_ll (of_handle o) m s2) as [calls [Hll Hnet]].
+  change (st_lofs s2) with (st_lofs s) in V2. change (st_pending s2) with (st_pending s) in V3.
+  change (st_rng s2) with (st_rng s) in V4. change (st_ll s2) with (mkCall (of_handle o) true acc :: st_ll s) in Hll.
+  set (s3 := emit_close (of_handle o) m s2) in *.
+  assert (Ho3 : st_oofs s3 = upd_at other f (st_oofs s)) by (rewrite V1; exact Ho2).
+  assert (Hfk : forall x, of_other (f x) = of_other x) by reflexivity.
+  pose proof (HK o true Hin) as Kr. pose proof (HK o false Hin) as Kw. unfold expected in Kr, Kw. simpl in Kr, Kw.
+  assert (Ez : (if of_other o =? 0 then 0%Z else 0%Z) = 0%Z) by (destruct (of_other o =? 0); reflexivity).
+  rewrite Ez in Kr, Kw. unfold b2z in Kr, Kw.
+  pose proof (cntb_nonneg (lofs_on (of_other o) true) (st_lofs s)). pose proof (cntb_nonneg (io_on (of_other o) true) (st_pending s)).
+  pose proof (cntb_nonneg (lofs_on (of_other o) false) (st_lofs s)). pose proof (cntb_nonneg (io_on (of_other o) false) (st_pending s)).
+  split.
+  - constructor.
+    + eapply Kd_as_K. eapply (Kd_change s s3 other f (fun _ => 0%Z)); try eassumption.
+      * intros k sa rd _. unfold expected. rewrite V2, V3. reflexivity.
+      * apply K_as_Kd. exact HK.
+      * intros x rd Hx Hxk Hc. assert (x = o) by (eapply (NoDup_key_eq of_other); try eassumption; [apply HU|congruence]).
+        subst x. unfold expected in *. rewrite V2, V3. simpl of_sa.
+        destruct rd; simpl cnt; simpl cnt in Hc; simpl bit in *; unfold rd', wr', b2z in *.
+        -- destruct (m_r acc); destruct (m_r (of_sa o)); cbn [andb orb negb]; lia.
+        -- destruct (m_w acc); destruct (m_w (of_sa o)); cbn [andb orb negb]; lia.
+    + eapply (U_change s s3 other f); try eassumption.
+    + eapply (Fr_change s s3 other f); try eassumption.
+  - intros h rd. eapply (Phi_change s s3 other o f (calls ++ [mkCall (of_handle o) true acc])); try eassumption.
+    + rewrite Hll, <- app_assoc. reflexivity.
+    + rewrite calls_net_app, Hnet. simpl. unfold call_net, holder. simpl of_handle. simpl lc_h. simpl lc_open. simpl lc_mask.
+      rewrite (N.eqb_sym (of_handle o) h). destruct (h =? of_handle o); simpl; [|reflexivity].
+      unfold b2z in *. destruct rd; simpl cnt; simpl bit; unfold m, rd', wr'; simpl.
+      * destruct (m_r acc); simpl; [|destruct (0 <? of_rd o); reflexivity].
+        destruct (0 <? of_rd o) eqn:E0.
+        -- apply N.ltb_lt in E0. destruct (m_r (of_sa o)); simpl.
+           ++ assert (0 <? of_rd o = true) by (apply N.ltb_lt; lia). rewrite H3. reflexivity.
+           ++ assert (0 <? of_rd o + 1 = true) by (apply N.ltb_lt; lia). rewrite H3. reflexivity.
+        -- apply N.ltb_ge in E0. destruct (m_r (of_sa o)); simpl; [lia|].
+           assert (0 <? of_rd o + 1 = true) by (apply N.ltb_lt; lia). rewrite H3. reflexivity.
+      * destruct (m_w acc); simpl; [|destruct (0 <? of_wr o); reflexivity].
+        destruct (0 <? of_wr o) eqn:E0.
+        -- apply N.ltb_lt in E0. destruct (m_w (of_sa o)); simpl.
+           ++ assert (0 <? of_wr o = true) by (apply N.ltb_lt; lia). rewrite H3. reflexivity.
+           ++ assert (0 <? of_wr o + 1 = true) by (apply N.ltb_lt; lia). rewrite H3. reflexivity.
+        -- apply N.ltb_ge in E0. destruct (m_w (of_sa o)); simpl; [lia|].
+           assert (0 <? of_wr o + 1 = true) by (apply N.ltb_lt; lia). rewrite H3. reflexivity.
+Qed.
+
+(* ---- composing: [good s0 s] = s is reached from s0 keeping Inv and Phi ------------------------------------ *)
+Definition good (s0 s : state) : Prop := Inv s0 -> Inv s /\ forall h rd, Phi s h rd = Phi s0 h rd.
+
+Lemma good_refl : forall s, good s s.
+Proof. intros s H. split; [assumption|reflexivity]. Qed.
+Lemma good_view : forall s0 s1 s2, good s0 s1 -> view_eq s1 s2 -> good s0 s2.
+Proof.
+  intros s0 s1 s2 G V H. destruct (G H) as [I1 P1]. destruct (pres_of_view _ _ V I1) as [I2 P2].
+  split; [assumption|]. intros. rewrite P2. apply P1.
+Qed.
+Lemma good_pres : forall f s0 s1, pres f -> good s0 s1 -> good s0 (f s1).
+Proof.
+  intros f s0 s1 Hf G H. destruct (G H) as [I1 P1]. destruct (Hf s1 I1) as [I2 P2].
+  split; [assumption|]. intros. rewrite P2. apply P1.
+Qed.
+Lemma good_pres2 : forall {X} (f : state -> state * X) s0 s1, pres2 f -> good s0 s1 -> good s0 (fst (f s1)).
+Proof.
+  intros X f s0 s1 Hf G H. destruct (G H) as [I1 P1]. destruct (Hf s1 I1) as [I2 P2].
+  split; [assumption|]. intros. rewrite P2. apply P1.
+Qed.
+Lemma good_step : forall s0 s1 s2, good s0 s1 -> good s1 s2 -> good s0 s2.
+Proof.
+  intros s0 s1 s2 G1 G2 H. destruct (G1 H) as [I1 P1]. destruct (G2 I1) as [I2 P2].
+  split; [assumption|]. intros. rewrite P2. apply P1.
+Qed.
+
+Lemma good_w_rng : forall s0 s1 v, good s0 s1 -> st_rng s1 <= v -> good s0 (w_rng s1 v).
+Proof.
+  intros s0 s1 v G Hle H. destruct (G H) as [I1 P1]. destruct (w_rng_pres s1 v Hle I1) as [I2 P2].
+  split; [assumption|]. intros. rewrite P2. apply P1.
+Qed.
+
+Ltac good_tac :=
+  repeat first
+    [ apply good_refl
+    | assumption
+    | match goal with
+      | |- good _ (w_rng _ _) => apply good_w_rng; [|simpl; lia]
+      | |- good _ (panic _) => eapply good_view; [|apply view_panic]
+      | |- good _ (w_now _ _) => eapply good_view; [|apply view_w_now]
+      | |- good _ (w_next_id _ _) => eapply good_view; [|apply view_w_next_id]
+      | |- good _ (w_confs _ _) => eapply good_view; [|apply view_w_confs]
+      | |- good _ (w_confirmed _ _) => eapply good_view; [|apply view_w_confirmed]
+      | |- good _ (w_idle _ _) => eapply good_view; [|apply view_w_idle]
+      | |- good _ (w_oos _ _) => eapply good_view; [|apply view_w_oos]
+      | |- good _ (w_unused _ _) => eapply good_view; [|apply view_w_unused]
+      | |- good _ (w_los _ _) => eapply good_view; [|apply view_w_los]
+      | |- good _ (w_pool _ _) => eapply good_view; [|apply view_w_pool]
+      | |- good _ (upd_conf _ _ _) => eapply good_view; [|apply view_upd_conf]
+      | |- good _ (upd_oos _ _ _) => eapply good_view; [|apply view_upd_oos]
+      | |- good _ (upd_los _ _ _) => eapply good_view; [|apply view_upd_los]
+      | |- good _ (upd_pfile _ _ _) => eapply good_view; [|apply view_upd_pfile]
+      | |- good _ (hold _ _) => eapply good_view; [|apply view_hold]
+      | |- good _ (release _ _) => eapply good_view; [|apply view_release]
+      | |- good _ (pool_open _ _) => eapply good_view; [|apply view_pool_open]
+      | |- good _ (pool_close _ _) => eapply good_view; [|apply view_pool_close]
+      | |- good _ (set_oos_last _ _ _) => eapply good_view; [|apply view_set_oos_last]
+      | |- good _ (set_oos_intx _ _ _) => eapply good_view; [|apply view_set_oos_intx]
+      | |- good _ (oos_complete_tx _ _ _ _) => eapply good_view; [|apply view_oos_complete_tx]
+      | |- good _ (los_complete_tx _ _ _ _) => eapply good_view; [|apply view_los_complete_tx]
+      | |- good _ (fst (los_start_tx _ _ _ _)) => eapply good_view; [|apply view_los_start_tx]
+      | |- good _ (enter _ _) => apply (good_pres (enter _)); [apply enter_pres|]
+      | |- good _ (conf_remove _ _) => apply (good_pres (conf_remove _)); [apply conf_remove_pres|]
+      | |- good _ (lofs_remove _ _) => apply (good_pres (lofs_remove _)); [apply lofs_remove_pres|]
+      | |- good _ (oofs_remove_start _ _) => apply (good_pres (oofs_remove_start _)); [apply oofs_remove_start_pres|]
+      | |- good _ (oofs_finalize _ _) => apply (good_pres (oofs_finalize _)); [apply oofs_finalize_pres|]
+      | |- good _ (forget_last _ _) => apply (good_pres (forget_last _)); [apply forget_last_pres|]
+      | |- good _ (fst (oos_start_tx _ _ _ _)) => apply (good_pres2 (oos_start_tx _ _ _)); [apply oos_start_tx_pres|]
+      | |- good _ (if ?c then _ else _) => destruct c
+      | |- good _ (match ?x with _ => _ end) => destruct x
+      end ].
+
+(* ---- simple operations ---------------------------------------------------------------------------------------- *)
+Lemma do_setclientid_good : forall t long cverf s, good s (fst (do_setclientid t long cverf s)).
+Proof.
+  intros t long cverf s. unfold do_setclientid.
+  destruct (find_by _ (st_confs (enter t s))); simpl; [good_tac|].
+  unfold draw. simpl. good_tac.
+Qed.
+
+(* ---- the table of parked calls only changes when a call parks or returns ------------------------------------- *)
+Definition psame (f : state -> state) : Prop := forall s, st_pending (f s) = st_pending s.
+
+Lemma psame_view : forall f, (forall s, view_eq s (f s)) -> psame f.
+Proof. intros f H s. destruct (H s) as (_&_&E&_). exact E. Qed.
+
+Lemma psame_fold : forall {A} (f : state -> A -> state) (l : list A),
+  (forall a, psame (fun s => f s a)) -> psame (fun s => fold_left f l s).
+Proof.
+  intros A f l Hf. induction l as [|a tl IH]; intros s; simpl; [reflexivity|].
+  rewrite (IH (f s a)). apply (Hf a).
+Qed.
+
+Lemma psame_emit_close : forall h m, psame (emit_close h m).
+Proof. intros h m s. apply (emit_close_view h m s). Qed.
+
+Lemma psame_oofs_release : forall other cleared, psame (oofs_release other cleared).
+Proof.
+  intros other cleared s. unfold oofs_release. destruct (find_oofs other s); [|reflexivity].
+  destruct (dec_count (of_rd o) (m_r cleared)) as [[rd zr] pr]. destruct (dec_count (of_wr o) (m_w cleared)) as [[wr zw] pw].
+  unfold gc_oofs. simpl. destruct (pr || pw); simpl; rewrite psame_emit_close; reflexivity.
+Qed.
+
+Lemma psame_oofs_set_sa : forall other m, psame (oofs_set_sa other m).
+Proof. intros other m s. reflexivity. Qed.
+Lemma psame_oofs_bump_seq : forall other, psame (oofs_bump_seq other).
+Proof. intros other s. reflexivity. Qed.
+Lemma psame_oofs_clone : forall other m, psame (oofs_clone other m).
+Proof.
+  intros other m s. unfold oofs_clone. destruct (find_oofs other s); [|reflexivity].
+  destruct (inc_count (of_rd o) (m_r m)) as [rd pr]. destruct (inc_count (of_wr o) (m_w m)) as [wr pw].
+  destruct (pr || pw); reflexivity.
+Qed.
+Lemma psame_oofs_upgrade : forall other acc, psame (oofs_upgrade other acc).
+Proof.
+  intros other acc s. unfold oofs_upgrade. destruct (find_oofs other s); [|reflexivity].
+  rewrite psame_emit_close. reflexivity.
+Qed.
+
+Lemma psame_lofs_remove : forall other, psame (lofs_remove other).
+Proof.
+  intros other s. unfold lofs_remove. destruct (find_lofs other s) as [lf|]; [|reflexivity].
+  match goal with |- st_pending (if _ then ?a else _) = _ => set (s2 := a) end.
+  assert (E : st_pending s2 = st_pending s).
+  { unfold s2. rewrite psame_oofs_release. simpl.
+    destruct (0 <? lf_count lf)%Z; [|reflexivity].
+    destruct (find_oofs (lf_oofs lf) s); [|reflexivity]. destruct (find_los (lf_client lf, lf_lokey lf) s); [|reflexivity].
+    destruct (find_pfile (of_handle o) s); [|reflexivity].
+    match goal with |- st_pending (if ?c then _ else _) = _ => destruct c end; reflexivity. }
+  destruct (existsb _ _); [exact E|simpl; exact E].
+Qed.
+
+Lemma psame_oofs_remove_start : forall other, psame (oofs_remove_start other).
+Proof.
+  intros other s. unfold oofs_remove_start.
+  pose proof (psame_fold (fun s o => lofs_remove o s) (lofs_others_of_oofs other s) (fun a => psame_lofs_remove a) s) as E.
+  cbv beta in E. destruct (find_oofs other _); [|simpl; exact E].
+  rewrite psame_oofs_set_sa, psame_oofs_release. exact E.
+Qed.
+
+Lemma psame_oofs_finalize : forall other, psame (oofs_finalize other).
+Proof.
+  intros other s. unfold oofs_finalize. destruct (find_oofs other s); [|reflexivity].
+  unfold gc_oofs. simpl. rewrite (psame_view _ (view_pool_close (of_handle o))). reflexivity.
+Qed.
+
+Lemma psame_forget_last : forall ck, psame (forget_last ck).
+Proof.
+  intros ck s. unfold forget_last. destruct (find_oos ck s); [|reflexivity]. destruct (oo_last o); [|reflexivity].
+  destruct (ca_closed c); [rewrite psame_oofs_finalize|]; reflexivity.
+Qed.
+
+Lemma psame_oos_reinit : forall ck, psame (oos_reinit ck).
+Proof.
+  intros ck s. unfold oos_reinit.
+  set (s0 := match find_oos ck s with Some o => if oo_intx o then panic s else s | None => s end).
+  assert (E0 : st_pending s0 = st_pending s) by (unfold s0; destruct (find_oos ck s); [destruct (oo_intx o)|]; reflexivity).
+  pose proof (psame_fold (fun s o => oofs_finalize o (oofs_remove_start o s)) (oofs_others_of_owner ck (forget_last ck s0))
+                (fun a s => eq_trans (psame_oofs_finalize a _) (psame_oofs_remove_start a s)) (forget_last ck s0)) as E.
+  cbv beta in E. rewrite E, psame_forget_last. exact E0.
+Qed.
+
+Lemma psame_oos_remove : forall ck, psame (oos_remove ck).
+Proof. intros ck s. unfold oos_remove. simpl. apply psame_oos_reinit. Qed.
+
+Lemma psame_conf_remove : forall short, psame (conf_remove short).
+Proof.
+  intros short s. unfold conf_remove. destruct (find_conf short s); [|reflexivity]. simpl.
+  set (s0 := if cf_hold c =? 0 then s else panic s).
+  assert (E0 : st_pending s0 = st_pending s) by (unfold s0; destruct (cf_hold c =? 0); reflexivity).
+  destruct (confirmed_of (cf_long c) s0); [|exact E0]. destruct (n =? short); [|exact E0].
+  simpl. match goal with |- st_pending (if _ then panic ?a else ?a) = _ => assert (E : st_pending a = st_pending s0) end.
+  { apply (psame_fold (fun s ck => oos_remove ck s) _ (fun a => psame_oos_remove a)). }
+  destruct (existsb _ _); simpl; rewrite E; exact E0.
+Qed.
+
+Lemma psame_expire_confs : forall fuel minseen, psame (expire_confs fuel minseen).
+Proof.
+  induction fuel as [|fuel IH]; intros minseen s; simpl; [reflexivity|].
+  destruct (st_idle s); [reflexivity|]. destruct (find_conf n s); [|reflexivity].
+  destruct (cf_lastseen c <? minseen)%Z; [|reflexivity]. rewrite IH. apply psame_conf_remove.
+Qed.
+Lemma psame_expire_oos : forall fuel minseen, psame (expire_oos fuel minseen).
+Proof.
+  induction fuel as [|fuel IH]; intros minseen s; simpl; [reflexivity|].
+  destruct (st_unused s); [reflexivity|]. destruct (find_oos p s); [|reflexivity].
+  destruct (oo_lastused o <? minseen)%Z; [|reflexivity]. rewrite IH. apply psame_oos_remove.
+Qed.
+Lemma psame_enter : forall t, psame (enter t).
+Proof. intros t s. unfold enter. rewrite psame_expire_oos, psame_expire_confs. reflexivity. Qed.
+
+Lemma psame_oos_start_tx : forall ck seq pol s, st_pending (fst (oos_start_tx ck seq pol s)) = st_pending s.
+Proof.
+  intros ck seq pol s. unfold oos_start_tx. destruct (find_oos ck s); [|reflexivity].
+  set (s0 := if oo_intx o then panic s else s).
+  assert (E0 : st_pending s0 = st_pending s) by (unfold s0; destruct (oo_intx o); reflexivity).
+  destruct (match oo_last o with Some c => if seq =? oo_lastseq o then Some c else None | None => None end); [exact E0|].
+  assert (Hmid : forall s1 (fail : bool), st_pending s1 = st_pending s ->
+            st_pending (fst (if fail then (s1, TxFail ERR_BAD_SEQID)
+                     else (hold (fst ck) (w_unused (set_oos_intx ck true (forget_last ck s1))
+                                                   (del_by (pair_eqb ck) (st_unused (set_oos_intx ck true (forget_last ck s1))))), TxStarted))) = st_pending s).
+  { intros s1 fail E1. destruct fail; simpl; [exact E1|].
+    rewrite (psame_view _ (view_hold (fst ck))). simpl. rewrite psame_forget_last. exact E1. }
+  destruct (oo_confirmed o); [apply Hmid; exact E0|].
+  destruct pol; [apply Hmid; exact E0|apply (Hmid s0 true); exact E0|].
+  apply (Hmid (oos_reinit ck s0) false). rewrite psame_oos_reinit. exact E0.
+Qed.
+
+(* ---- operations --------------------------------------------------------------------------------------------------- *)
+Lemma good_fold_lofs_remove : forall l s0 s1, good s0 s1 -> good s0 (fold_left (fun s o => lofs_remove o s) l s1).
+Proof.
+  intros l s0 s1 G. apply (good_pres (fun s => fold_left (fun s o => lofs_remove o s) l s)); [|assumption].
+  apply pres_fold_left. intros a. apply lofs_remove_pres.
+Qed.
+
+Lemma do_setclientid_confirm_good : forall t short sverf s, good s (fst (do_setclientid_confirm t short sverf s)).
+Proof.
+  intros t short sverf s. unfold do_setclientid_confirm.
+  destruct (find_by _ (st_confs (enter t s))); simpl; [|good_tac].
+  destruct (confirmed_of (cf_long c) (enter t s)).
+  - destruct (n =? short); simpl; [good_tac|].
+    destruct (find_conf n (hold short (enter t s))); simpl; [|good_tac].
+    destruct (0 <? cf_hold c0); simpl; good_tac.
+  - simpl. good_tac.
+Qed.
+
+Lemma do_renew_good : forall t short s, good s (fst (do_renew t short s)).
+Proof. intros. unfold do_renew. destruct (confirmed_client short (enter t s)); simpl; good_tac. Qed.
+
+Lemma do_lockt_good : forall t c ltype off len client owner s, good s (fst (do_lockt t c ltype off len client owner s)).
+Proof.
+  intros. unfold do_lockt. destruct c; simpl; try apply good_refl.
+  destruct (confirmed_client client (enter t s)); simpl; good_tac.
+Qed.
+
+Lemma do_release_lockowner_good : forall t client owner s, good s (fst (do_release_lockowner t client owner s)).
+Proof.
+  intros. unfold do_release_lockowner. destruct (confirmed_client client (enter t s)); simpl; [|good_tac].
+  destruct (find_los (client, owner) (hold client (enter t s))); simpl; [|good_tac].
+  destruct (existsb _ _); simpl; [good_tac|].
+  eapply good_view; [|apply view_release].
+  match goal with |- good _ (match find_los _ ?x with _ => _ end) => assert (G : good s x) end.
+  { apply good_fold_lofs_remove. good_tac. }
+  destruct (find_los _ _); [eapply good_view; [exact G|apply view_panic]|exact G].
+Qed.
+
+(* byte-range lock operations only change lock counts, lock state ID seqids and the pool *)
+Lemma tx_lock_common_good : forall lfother ltype off len s0 s, good s0 s -> good s0 (fst (tx_lock_common lfother ltype off len s)).
+Proof.
+  intros lfother ltype off len s0 s G. unfold tx_lock_common.
+  destruct (find_lofs lfother s) as [lf|]; simpl; [|good_tac].
+  destruct (find_oofs (lf_oofs lf) s); simpl; [|good_tac]. destruct (find_los _ s); simpl; [|good_tac].
+  destruct (find_pfile (of_handle o) s); simpl; [|good_tac].
+  destruct (LS.offset_length_to_start_end off len) as [[st en]|]; simpl; [|assumption].
+  destruct (lock_type ltype); simpl; [|assumption].
+  destruct (LS.test _ _); simpl; [assumption|].
+  intros H.
+  match goal with |- Inv (upd_lofs _ ?f ?x) /\ _ => assert (Gx : good s0 x) end.
+  { good_tac. }
+  destruct (Gx H) as [I1 P1].
+  match goal with |- Inv (upd_lofs ?a ?f ?x) /\ _ => destruct (upd_lofs_pres a f x) as [I2 P2] end.
+  - intros l'. repeat split; reflexivity.
+  - exact I1.
+  - split; [exact I2|]. intros. rewrite P2. apply P1.
+Qed.
+
+Lemma tx_locku_good : forall off len c sq other s0 s, good s0 s -> good s0 (fst (tx_locku off len c sq other s)).
+Proof.
+  intros off len c sq other s0 s G. unfold tx_locku.
+  destruct (get_lofs sq other c s) as [lf|]; simpl; [|assumption].
+  destruct (find_oofs (lf_oofs lf) s); simpl; [|good_tac]. destruct (find_los _ s); simpl; [|good_tac].
+  destruct (find_pfile (of_handle o) s); simpl; [|good_tac].
+  destruct (LS.offset_length_to_start_end off len) as [[st en]|]; simpl; [|assumption].
+  intros H.
+  match goal with |- Inv (upd_lofs _ ?f ?x) /\ _ => assert (Gx : good s0 x) end.
+  { good_tac. }
+  destruct (Gx H) as [I1 P1].
+  match goal with |- Inv (upd_lofs ?a ?f ?x) /\ _ => destruct (upd_lofs_pres a f x) as [I2 P2] end.
+  - intros l'. repeat split; reflexivity.
+  - exact I1.
+  - split; [exact I2|]. intros. rewrite P2. apply P1.
+Qed.
+
+Lemma lock_owner_op_good : forall t k lsid seq body s,
+  (forall sq other s1, good s s1 -> good s (fst (body sq other s1))) ->
+  good s (fst (lock_owner_op t k lsid seq body s)).
+Proof.
+  intros t k lsid seq body s Hb. unfold lock_owner_op.
+  destruct (internalize_regular lsid); simpl; try good_tac.
+  destruct (find_lofs other (enter t s)) as [lf|]; simpl; [|good_tac].
+  pose proof (view_los_start_tx (lf_client lf, lf_lokey lf) seq false (enter t s)) as V.
+  destruct (los_start_tx (lf_client lf, lf_lokey lf) seq false (enter t s)) as [s1 r]. simpl in V.
+  assert (G1 : good s s1) by (eapply good_view; [|exact V]; good_tac).
+  destruct r; simpl; try exact G1.
+  specialize (Hb seq0 other s1 G1). destruct (body seq0 other s1) as [s2 res]. simpl in *.
+  eapply good_view; [exact Hb|apply view_los_complete_tx].
+Qed.
+
+Lemma find_live_oofs_In : forall other s o, find_live_oofs other s = Some o -> In o (st_oofs s) /\ of_other o = other.
+Proof.
+  intros other s o H. apply find_by_In in H. destruct H as [Hin Hk]. apply andb_prop in Hk. destruct Hk as [Hk _].
+  apply N.eqb_eq in Hk. tauto.
+Qed.
+
+Lemma get_oofs_In : forall sq other allow c s o, get_oofs sq other allow c s = inl o -> In o (st_oofs s) /\ of_other o = other.
+Proof.
+  intros sq other allow c s o H. unfold get_oofs in H.
+  destruct (find_live_oofs other s) as [o'|] eqn:E; [|discriminate].
+  apply find_live_oofs_In in E.
+  destruct c; try discriminate;
+  repeat match type of H with (if ?b then _ else _) = _ => destruct b; try discriminate end;
+  inversion H; subst; exact E.
+Qed.
+
+Lemma oofs_bump_seq_pres : forall other, pres (oofs_bump_seq other).
+Proof.
+  intros other s [HK HU HF]. destruct (oofs_bump_seq_ok other s 0 (fun _ => 0%Z) HU HF HK) as (K1&U1&F1&P1).
+  split; [constructor; assumption|exact P1].
+Qed.
+
+Lemma tx_open_confirm_good : forall sid c s0 s, good s0 s -> good s0 (fst (fst (tx_open_confirm sid c s))).
+Proof.
+  intros sid c s0 s G. unfold tx_open_confirm. destruct (internalize_regular sid); simpl; try assumption.
+  destruct (get_oofs seq other true c s); simpl; [|assumption].
+  apply (good_pres (oofs_bump_seq other)); [apply oofs_bump_seq_pres|]. good_tac.
+Qed.
+
+Lemma tx_close_good : forall sid c s0 s, good s0 s -> good s0 (fst (fst (tx_close sid c s))).
+Proof.
+  intros sid c s0 s G. unfold tx_close. destruct (internalize_regular sid); simpl; try assumption.
+  destruct (get_oofs seq other false c s); simpl; [|assumption].
+  apply (good_pres (oofs_bump_seq other)); [apply oofs_bump_seq_pres|]. good_tac.
+Qed.
+
+Lemma tx_open_downgrade_good : forall sid access deny c s0 s, good s0 s -> good s0 (fst (fst (tx_open_downgrade sid access deny c s))).
+Proof.
+  intros sid access deny c s0 s G. unfold tx_open_downgrade. destruct (internalize_regular sid); simpl; try assumption.
+  destruct (get_oofs seq other false c s) as [o|] eqn:Eg; simpl; [|assumption].
+  destruct (access_to_mask access) as [acc|]; simpl; [|assumption].
+  destruct (negb (mask_subset acc (of_sa o)) || negb (deny =? 0)) eqn:Ec; simpl; [assumption|].
+  apply Bool.orb_false_iff in Ec. destruct Ec as [Ec _]. apply Bool.negb_false_iff in Ec.
+  apply (good_pres (oofs_bump_seq other)); [apply oofs_bump_seq_pres|].
+  intros H0. destruct (G H0) as [I1 P1].
+  destruct (get_oofs_In _ _ _ _ _ _ Eg) as [Hin Hk].
+  pose proof (release_then_set_pres other acc s I1) as R. cbv beta in R.
+  rewrite (find_oofs_In other s o (inv_U s I1) Hin Hk), Ec in R. destruct R as [I2 P2].
+  split; [exact I2|]. intros. rewrite P2. apply P1.
+Qed.
+
+Lemma rng_oofs_clone : forall other m s, st_rng (oofs_clone other m s) = st_rng s.
+Proof.
+  intros other m s. unfold oofs_clone. destruct (find_oofs other s); [|reflexivity].
+  destruct (inc_count (of_rd o) (m_r m)) as [rd pr]. destruct (inc_count (of_wr o) (m_w m)) as [wr pw].
+  destruct (pr || pw); reflexivity.
+Qed.
+
+Lemma lofs_oofs_clone : forall other m s, st_lofs (oofs_clone other m s) = st_lofs s.
+Proof.
+  intros other m s. unfold oofs_clone. destruct (find_oofs other s); [|reflexivity].
+  destruct (inc_count (of_rd o) (m_r m)) as [rd pr]. destruct (inc_count (of_wr o) (m_w m)) as [wr pw].
+  destruct (pr || pw); reflexivity.
+Qed.
+
+Lemma K_pos_sa : forall s o rd, K s -> In o (st_oofs s) -> bit rd (of_sa o) = true -> 0 < cnt rd o.
+Proof.
+  intros s o rd HK Hin Hb. eapply (Kd_pos s (of_other o) (fun _ => 0%Z)); try eassumption; [apply K_as_Kd; assumption|reflexivity|].
+  rewrite Hb. simpl. lia.
+Qed.
+
+(* clone the open-owner file's share reservation into a new lock-owner file *)
+Lemma clone_add_lofs_good : forall s o other cl lokey,
+  Inv s -> In o (st_oofs s) -> of_other o = other ->
+  let s1 := oofs_clone other (of_sa o) s in
+  let s2 := snd (draw s1) in
+  let s3 := w_lofs s2 (st_lofs s2 ++ [mkLofs (fst (draw s1)) 0 cl lokey other (of_sa o) 0]) in
+  Inv s3 /\ forall h rd, Phi s3 h rd = Phi s h rd.
+Proof.
+  intros s o other cl lokey HI Hin Hk s1 s2 s3.
+  destruct (oofs_clone_ok other (of_sa o) s o HI Hin Hk) as (K1&U1&F1&P1).
+  { intros rd Hb. apply (K_pos_sa s o rd); [apply HI|assumption|assumption]. }
+  fold s1 in K1, U1, F1, P1.
+  assert (Er : st_rng s1 = st_rng s) by apply rng_oofs_clone.
+  assert (K2 : Kd s2 other (fun rd => b2z (bit rd (of_sa o)))) by exact K1.
+  assert (U2 : U s2) by exact U1.
+  assert (F2 : Fr s2).
+  { destruct F1 as (A&B&C). unfold Fr, s2, draw. simpl. split; [|split].
+    - intros x Hx. specialize (A x Hx). lia.
+    - intros l Hl. specialize (B l Hl). lia.
+    - intros p Hp. specialize (C p Hp). destruct (snd p); try exact I. lia. }
+  set (lf := mkLofs (fst (draw s1)) 0 cl lokey other (of_sa o) 0) in *.
+  assert (Elf : lf_other lf = st_rng s1) by reflexivity.
+  destruct (add_lofs_ok s2 lf) as [I3 P3]; try assumption.
+  - intros l Hl Heq. destruct F1 as (_&B&_). change (st_lofs s2) with (st_lofs s1) in Hl. specialize (B l Hl).
+    rewrite Elf in Heq. lia.
+  - rewrite Elf. unfold s2, draw. simpl. lia.
+  - simpl. unfold s2, draw. simpl. rewrite Er. destruct HI as [_ _ (A&_&_)]. specialize (A o Hin). lia.
+  - split; [exact I3|]. intros. rewrite P3. apply P1.
+Qed.
+
+Lemma tx_lock_initial_good : forall ltype off len osid lseq lclient lowner c s0 s,
+  good s0 s -> good s0 (fst (fst (tx_lock_initial ltype off len osid lseq lclient lowner c s))).
+Proof.
+  intros ltype off len osid lseq lclient lowner c s0 s G. unfold tx_lock_initial.
+  destruct (internalize_regular osid); simpl; try assumption.
+  destruct (get_oofs seq other false c s) as [o|] eqn:Eg; simpl; [|assumption].
+  destruct (negb (lclient =? of_client o)); simpl; [assumption|].
+  destruct (get_oofs_In _ _ _ _ _ _ Eg) as [Hin Hk].
+  set (lk := (of_client o, lowner)).
+  set (pre := match find_los lk s with
+              | None => (w_next_id (w_los s (st_los s ++ [mkLos (of_client o) lowner (st_next_id s) 0 None])) (st_next_id s + 1), true, false)
+              | Some _ => (s, false, existsb (fun l => (lf_oofs l =? other) && lofs_of_los lk l) (st_lofs s))
+              end).
+  assert (Vpre : view_eq s (fst (fst pre))).
+  { unfold pre. destruct (find_los lk s); simpl; [apply view_eq_refl|].
+    eapply view_eq_trans; [apply view_w_los|apply view_w_next_id]. }
+  destruct pre as [[sa initial] dup]. simpl in Vpre.
+  destruct dup; simpl; [eapply good_view; eassumption|].
+  pose proof (view_los_start_tx lk lseq initial sa) as Vb.
+  destruct (los_start_tx lk lseq initial sa) as [sb r]. simpl in Vb.
+  assert (Vsb : view_eq s sb) by (eapply view_eq_trans; eassumption).
+  assert (Gb : good s0 sb) by (eapply good_view; eassumption).
+  destruct r; simpl; [exact Gb|destruct initial; [eapply good_view; [exact Gb|apply view_panic]|exact Gb]|].
+  (* TxStarted *)
+  assert (Hinb : In o (st_oofs sb)) by (destruct Vsb as (E&_); rewrite E; exact Hin).
+  assert (Gd : good s0 (w_lofs (snd (draw (oofs_clone other (of_sa o) sb)))
+                          (st_lofs (snd (draw (oofs_clone other (of_sa o) sb)))
+                           ++ [mkLofs (fst (draw (oofs_clone other (of_sa o) sb))) 0 (fst lk) (snd lk) other (of_sa o) 0]))).
+  { intros H0. destruct (Gb H0) as [Ib Pb].
+    destruct (clone_add_lofs_good sb o other (fst lk) (snd lk) Ib Hinb Hk) as [Id Pd].
+    split; [exact Id|]. intros. rewrite Pd. apply Pb. }
+  unfold draw in *. simpl in *.
+  set (sd := w_lofs _ _) in *.
+  pose proof (tx_lock_common_good (st_rng (oofs_clone other (of_sa o) sb)) ltype off len s0 sd Gd) as Ge.
+  destruct (tx_lock_common (st_rng (oofs_clone other (of_sa o) sb)) ltype off len sd) as [se res]. simpl in Ge.
+  assert (Gf : good s0 (los_complete_tx lk lseq (mkCached KLock res None) se)) by (eapply good_view; [exact Ge|apply view_los_complete_tx]).
+  destruct (status_of res =? NFS4_OK); simpl; [exact Gf|].
+  assert (Gg : good s0 (lofs_remove (st_rng (oofs_clone other (of_sa o) sb)) (los_complete_tx lk lseq (mkCached KLock res None) se))).
+  { apply (good_pres (lofs_remove _)); [apply lofs_remove_pres|exact Gf]. }
+  destruct (Nat.eqb _ _); [exact Gg|eapply good_view; [exact Gg|apply view_panic]].
+Qed.
+
+Lemma owner_op_good : forall t ef k sid seq pol body s,
+  (forall s1, good s s1 -> good s (fst (fst (body s1)))) ->
+  good s (fst (owner_op t ef k sid seq pol body s)).
+Proof.
+  intros t ef k sid seq pol body s Hb. unfold owner_op.
+  assert (G0 : good s (if ef then enter t s else s)) by (destruct ef; good_tac).
+  destruct (internalize_regular sid); simpl; try exact G0.
+  assert (G1 : good s (if ef then (if ef then enter t s else s) else enter t (if ef then enter t s else s))) by (destruct ef; good_tac).
+  set (s1 := if ef then (if ef then enter t s else s) else enter t (if ef then enter t s else s)) in *.
+  destruct (find_live_oofs other s1) as [o|]; simpl; [|exact G1].
+  destruct (match find_oos (of_client o, of_owner o) s1 with Some oo => oo_intx oo | None => false end); simpl; [exact G1|].
+  pose proof (good_pres2 (oos_start_tx (of_client o, of_owner o) seq pol) s s1 (oos_start_tx_pres _ _ _) G1) as G2.
+  destruct (oos_start_tx (of_client o, of_owner o) seq pol s1) as [s2 r]. simpl in G2.
+  destruct r; simpl; try exact G2.
+  specialize (Hb s2 G2). destruct (body s2) as [[s3 res] closed]. simpl in *.
+  eapply good_view; [exact Hb|apply view_oos_complete_tx].
+Qed.
+
+Definition fresh (g : N) (s : state) : Prop := ~ In g (map fst (st_pending s)).
+
+Lemma fresh_of_existsb : forall g s, existsb (fun p => fst p =? g) (st_pending s) = false -> fresh g s.
+Proof.
+  intros g s H Hin. apply in_map_iff in Hin. destruct Hin as [p [E Hp]].
+  assert (existsb (fun p => fst p =? g) (st_pending s) = true).
+  { apply existsb_exists. exists p. split; [assumption|]. apply N.eqb_eq. assumption. }
+  congruence.
+Qed.
+
+Lemma fresh_eq : forall g s s', st_pending s' = st_pending s -> fresh g s -> fresh g s'.
+Proof. unfold fresh. intros g s s' E. rewrite E. tauto. Qed.
+
+Lemma do_open_body_good : forall g c a s0 s, fresh g s -> good s0 s -> good s0 (fst (do_open_body g c a s)).
+Proof.
+  intros g c a s0 s Hfr G. unfold do_open_body.
+  destruct (negb (confirmed_client (oa_client a) s)); [exact G|].
+  cbv zeta.
+  set (ck := (oa_client a, oa_owner a)).
+  set (s1 := match find_oos ck s with Some _ => s | None => w_oos s (st_oos s ++ [mkOos (fst ck) (snd ck) false 0 None false 0]) end).
+  assert (V1 : view_eq s s1) by (unfold s1; destruct (find_oos ck s); [apply view_eq_refl|apply view_w_oos]).
+  assert (G1 : good s0 s1) by (eapply good_view; eassumption).
+  destruct (find_oos ck s1) as [o|]; [|eapply good_view; [exact G1|apply view_panic]].
+  destruct (oo_intx o); [exact G1|].
+  pose proof (good_pres2 (oos_start_tx ck (oa_seq a) PolReinit) s0 s1 (oos_start_tx_pres _ _ _) G1) as G2.
+  pose proof (psame_oos_start_tx ck (oa_seq a) PolReinit s1) as E2.
+  destruct (oos_start_tx ck (oa_seq a) PolReinit s1) as [s2 r]. cbn [fst] in G2, E2.
+  destruct r; try exact G2.
+  destruct (tx_open_start a ck c s2) as [res|p] eqn:Et.
+  - cbn [fst]. eapply good_view; [exact G2|apply view_oos_complete_tx].
+  - assert (Hfr2 : fresh g s2).
+    { apply (fresh_eq g s); [|exact Hfr]. rewrite E2. destruct V1 as (_&_&E&_). exact E. }
+    assert (Hp : exists cl key seq acc prev, p = POpen cl key seq acc prev (st_ll s2)).
+    { unfold tx_open_start in Et.
+      destruct (access_to_mask (oa_access a)); [|discriminate].
+      destruct (oa_deny a =? 0); [|destruct (oa_deny a <=? 3); discriminate].
+      destruct (oa_claim a) as [nm|deleg| |]; try discriminate.
+      - destruct c; try discriminate. destruct nm; try discriminate. inversion Et. repeat eexists.
+      - destruct c; try discriminate. destruct (find_by _ (st_oofs s2)); [|discriminate].
+        destruct (negb (deleg =? 0)); [discriminate|]. destruct (oa_how a); try discriminate; inversion Et; repeat eexists. }
+    destruct Hp as (cl&key&seq&acc&prev&->). cbn [fst].
+    intros H0. destruct (G2 H0) as [I2 P2].
+    destruct (add_popen_ok s2 g cl key seq acc prev I2 Hfr2) as [I3 P3].
+    split; [exact I3|]. intros. rewrite P3. apply P2.
+Qed.
+
